@@ -4,6 +4,7 @@ mod e1;
 mod e2;
 mod e3;
 mod expect;
+mod mock_http;
 mod props;
 mod report;
 mod smoke;
@@ -32,6 +33,17 @@ fn main() {
             world::names::self_check();
             let n: usize = args.get(2).and_then(|s| s.parse().ok()).unwrap_or(1000);
             smoke::run(n);
+        }
+        Some("codegen") => {
+            // debugging aid: verif-driver codegen <schema file> <query file> [opts json]
+            e2::install_silent_panic_hook();
+            let opts: world::options::Opts = args.get(4).map(|j| serde_json::from_str(j).expect("opts json")).unwrap_or_default();
+            let q = std::fs::read_to_string(&args[3]).expect("query");
+            let out = e2::run_job_here(&e2::Job { schema_path: args[2].clone(), query: e2::QuerySrc::Text(q), opts });
+            match out {
+                e2::Outcome::Ok(t) => println!("{}", t),
+                other => println!("{:?}", other),
+            }
         }
         Some("setup") => {
             // warm every shared build: CLI binary, consumer-crate dependencies (with and without serde)
